@@ -1,15 +1,21 @@
-from common import STD
+from common import STD, ROOT
 PROPERTY = "C12"
 EXPLANATION = ("Real sub-process node (newSubProcess constructor with an inner start -> end program, subProcess.NextAction / run / startAll / "
                "ceaseFlowMonitor, inner start and end events, inner flow), the real activity harness around it and the parent's flow loop, in an "
                "instance built by NewProcess; a recording sink follows the sub-process; the scheduler is symbolic. "
                "Comparison with the inlined program over all C01 programs, nesting depth > 1 and re-entry are not covered.")
 ASSUMPTIONS = ["tracers replaced by the synchronous stub whose Subscribe is a scheduling point (contract established by C09)",
-               "inner program fixed: start event -> end event; one parent token; depth 1"]
+               "inner program fixed: start event -> end event; one parent token; depth 1",
+               "relay scenario: subProcess.startAll replaced by a no-op and the inner instance by harness-emitted traces on the inner tracer (so the inner completion monitor, which the design probes showed to report on the wrong tracer, is NOT part of this scenario)"]
 SCENARIOS = [
     dict(name="C12 inner activity kinds", entry="VerifC12_InnerActivityKinds", K=60, reach=["built"], overrides=STD, max_instr=4000000,
          expect_obligations=["an activity inside a sub-process is the same kind of node (requested with the same activity type) as inline"],
          bounds="9 activity kinds (solver's choice), one activity inline and one inside a sub-process; construction by NewProcess / newSubProcess"),
+    dict(name="C12 relay: release only on inner completion", entry="VerifC12_RelayRelease", K=80, reach=["quiescent"], native=False,
+         overrides=dict(STD, **{"(*%s.subProcess).startAll" % ROOT: "verifSubStartAll"}),
+         expect_obligations=["the parent's token does not continue while the inner instance has not reported that no token remains",
+                             "the parent's token continues exactly once when the inner instance has completed"],
+         bounds="real subProcess.NextAction/run relay loop; the inner instance is a stand-in: the harness emits CompletionTrace, TerminationTrace, then CeaseFlowTrace on the inner tracer"),
     dict(name="C12 sub-process (start -> end inside), one parent token", entry="VerifC12_Basic", K=160, reach=["quiescent"], overrides=STD, tiers=("thorough",),
          expect_obligations=["the parent's token continues past the sub-process once every inner token is consumed"],
          bounds="one sub-process containing start -> end, one parent token, all interleavings", time_budget_s=1500),
